@@ -116,10 +116,13 @@ func c18id(u string) string {
 
 // ---- abstract CRLs ----
 type fcrlA struct {
-	ID    int64  // CRL number
-	Next  string // +1h | -1h | absent
-	Fresh fshapeA
+	ID     int64  // CRL number
+	Next   string // +1h | -1h | absent
+	Fresh  fshapeA
+	Status int // HTTP status the server sends with this CRL as body (0 = 200); anything but 200 is not a download
 }
+
+func (c fcrlA) served() bool { return c.Status == 0 || c.Status == 200 }
 
 var c18issuer *Cert
 var c18cache sync.Map // key -> parsed CRL
@@ -185,6 +188,9 @@ func (w *c18world) RoundTrip(req *http.Request) (*http.Response, error) {
 	if !ok {
 		return httpBody(404, []byte("not here"))
 	}
+	if !c.served() {
+		return httpBody(c.Status, c.der())
+	}
 	return httpBody(200, c.der())
 }
 func (w *c18world) Get(ctx context.Context, url string) (*crlpkg.Bundle, error) {
@@ -234,6 +240,9 @@ func (o c18op) term() string {
 	case "fetch":
 		return fmt.Sprintf("(OFetch %s)", id)
 	case "publish":
+		if !o.CRL.served() { // for the model a location answering with another status is one that does not answer
+			return fmt.Sprintf("(OUnpublish %s)", id)
+		}
 		return fmt.Sprintf("(OPublish %s %s)", id, o.CRL.term())
 	case "unpublish":
 		return fmt.Sprintf("(OUnpublish %s)", id)
@@ -271,7 +280,9 @@ func runC18(w *CaseWriter, withCache, discard bool, initial map[string]fcrlA, op
 	}
 	sortStrings(us)
 	for _, u := range us {
-		srvTerms = append(srvTerms, fmt.Sprintf("(%s, %s)", c18id(u), initial[u].term()))
+		if initial[u].served() {
+			srvTerms = append(srvTerms, fmt.Sprintf("(%s, %s)", c18id(u), initial[u].term()))
+		}
 	}
 	for _, o := range ops {
 		switch o.Kind {
@@ -437,6 +448,17 @@ func genC18(tier string, rng *RNG, w *CaseWriter) {
 		}
 	}
 	// (2) histories over the operation alphabet
+	// (1a) valid CRL bodies delivered with a status other than 200: the base (an error), the first delta location (the next one is tried)
+	for _, st := range []int{500, 404, 201, 203} {
+		for _, cfg := range [][2]bool{{false, false}, {true, false}} {
+			srv := map[string]fcrlA{base: {ID: 10, Next: "+1h", Fresh: shapes[0], Status: st}}
+			runC18(w, cfg[0], cfg[1], srv, []c18op{{Kind: "fetch", URL: base}, {Kind: "publish", URL: base, CRL: fcrlA{ID: 10, Next: "+1h", Fresh: shapes[0]}}, {Kind: "fetch", URL: base}}, []string{"status-not-200"})
+			srv = map[string]fcrlA{base: {ID: 10, Next: "+1h", Fresh: shapes[2]}, d1: {ID: 11, Next: "+1h", Fresh: fshapeA{Kind: "none"}, Status: st}, d2: delta(12, "+1h")}
+			runC18(w, cfg[0], cfg[1], srv, []c18op{{Kind: "fetch", URL: base}, {Kind: "fetch", URL: base}}, []string{"status-not-200"})
+			srv = map[string]fcrlA{base: {ID: 10, Next: "+1h", Fresh: shapes[1]}, d1: {ID: 11, Next: "+1h", Fresh: fshapeA{Kind: "none"}, Status: st}}
+			runC18(w, cfg[0], cfg[1], srv, []c18op{{Kind: "fetch", URL: base}, {Kind: "publish", URL: d1, CRL: fcrlA{ID: 11, Next: "+1h", Fresh: fshapeA{Kind: "none"}, Status: st}}, {Kind: "fetch", URL: base}}, []string{"status-not-200"})
+		}
+	}
 	// (1b) the fetched URL itself is not plain http although the transport would answer it; with and without a cached entry
 	for _, cfg := range [][2]bool{{false, false}, {true, false}, {true, true}} {
 		for _, bu := range []string{"https://crl.test/f/base.crl", "ldap://dir.test/cn=base", "ftp://crl.test/f/base.crl"} {
